@@ -780,6 +780,12 @@ func (tm *Manager) Run(ec chan error) {
 	tm.running.Lock()
 	defer tm.running.Unlock()
 
+	// A new restart channel is made before loading so that a failed
+	// load doesn't leave the closed channel of the previous generation
+	// behind. Otherwise the next call to Restart panics while
+	// closing it again and no task ever runs.
+	tm.restart = make(chan struct{})
+
 	var err error
 	tm.tasks, err = loadTasks(tm.ctx, tm.pgp, tm.conf)
 	if err != nil {
@@ -788,7 +794,6 @@ func (tm *Manager) Run(ec chan error) {
 	}
 	close(ec)
 
-	tm.restart = make(chan struct{})
 	var wg sync.WaitGroup
 	for i := range tm.tasks {
 		i := i
